@@ -38,11 +38,12 @@ Theorem C07_ping : forall c ax st n, f_tag n = "iq" -> oeq (f_xmlns n) "urn:xmpp
 Proof. exact ping_thm. Qed.
 Print Assumptions C07_ping.
 
-(* full statement intended by the property: every well-formed message that is not presentable and
-   is not a pure key distribution gets exactly one receipt.  Proved for payloads without a key
-   distribution on board (f_skdm = false); the remaining case is the open finding below. *)
+(* the property for messages at full strength: every well-formed message that is not presentable and is not a
+   pure key distribution (the pkmsg part of a group message, skdm_only) gets exactly one receipt, nothing reaches
+   the application, nothing raises.  (Until the fix recorded in known_findings/C07.json the theorem needed
+   f_skdm = false; the witness of the unrepaired code is kept below.) *)
 Theorem C07_unsupported_message : forall c ax st n,
-  f_tag n = "message" -> wf_message n = true -> presentable n = false -> f_skdm n = false ->
+  f_tag n = "message" -> wf_message n = true -> presentable n = false -> skdm_only n = false ->
   (match f_mediatype n with Some _ => fl_media c | None => true end) = true ->
   let a := stack_recv repaired c ax st n in
   receipts a = [SReceipt (f_id n) (f_from n) (nz (f_participant n))
@@ -51,6 +52,14 @@ Theorem C07_unsupported_message : forall c ax st n,
 Proof. exact unsupported_message_thm. Qed.
 Print Assumptions C07_unsupported_message.
 
+(* ... and the pure key distribution itself gets nothing at all, text and media alike *)
+Theorem C07_key_distribution_only_silent : forall c ax st n,
+  f_tag n = "message" -> wf_message n = true -> skdm_only n = true ->
+  f_conv n = false -> f_ext n = false ->
+  stack_recv repaired c ax st n = [].
+Proof. exact skdm_only_silent_thm. Qed.
+Print Assumptions C07_key_distribution_only_silent.
+
 Theorem C07_media_off_silent : forall c ax st n,
   f_tag n = "message" -> wf_message n = true -> fl_media c = false ->
   (match f_mediatype n with Some _ => true | None => false end) = true ->
@@ -58,9 +67,39 @@ Theorem C07_media_off_silent : forall c ax st n,
 Proof. exact media_off_silent_thm. Qed.
 Print Assumptions C07_media_off_silent.
 
-(* open finding: key distribution + unpresentable content -> no receipt *)
+(* repaired finding, witness of the unrepaired messages layer: key distribution + unpresentable content -> no receipt *)
 Theorem C07_unsupported_with_skdm_refuted : exists c n,
-  f_tag n = "message" /\ wf_message n = true /\ presentable n = false /\ f_skdm n = true /\
-  answers (stack_recv repaired c false [] n) = [].
+  f_tag n = "message" /\ wf_message n = true /\ presentable n = false /\ skdm_only n = false /\
+  answers (stack_recv unrepaired_text c false [] n) = [].
 Proof. exact unsupported_with_skdm_refuted. Qed.
 Print Assumptions C07_unsupported_with_skdm_refuted.
+
+(* ---- histories: the duty is per stanza, whatever was received before (same id again, same stanza again, another
+   sender with the same id): position k of ANY stanza sequence, any starting registry *)
+Theorem C07_notification_ack_history : forall ns c ax st k n,
+  nth_error ns k = Some n -> f_tag n = "notification" -> picture_rejected n = false ->
+  exists a, nth_error (run_recvs repaired c ax st ns) k = Some a /\
+            acks a = [notification_ack n] /\ answers a = [notification_ack n] /\ raises a = 0.
+Proof. exact notification_ack_history_thm. Qed.
+Print Assumptions C07_notification_ack_history.
+
+Theorem C07_call_history : forall ns c ax st k n,
+  nth_error ns k = Some n -> f_tag n = "call" ->
+  exists a, nth_error (run_recvs repaired c ax st ns) k = Some a /\
+    ups a = ["CallProtocolEntity"] /\ raises a = 0 /\
+    answers a = (if has_child n "offer"
+                 then [SReceipt (f_id n) (f_from n) None None (nz (child_callid n "offer"))]
+                 else [SAck (f_id n) "call" None (f_from n) None]).
+Proof. exact call_history_thm. Qed.
+Print Assumptions C07_call_history.
+
+Theorem C07_unsupported_message_history : forall ns c ax st k n,
+  nth_error ns k = Some n ->
+  f_tag n = "message" -> wf_message n = true -> presentable n = false -> skdm_only n = false ->
+  (match f_mediatype n with Some _ => fl_media c | None => true end) = true ->
+  exists a, nth_error (run_recvs repaired c ax st ns) k = Some a /\
+    receipts a = [SReceipt (f_id n) (f_from n) (nz (f_participant n))
+                           (match f_mediatype n with Some _ => Some "read" | None => None end) None] /\
+    answers a = receipts a /\ ups a = [] /\ raises a = 0.
+Proof. exact unsupported_message_history_thm. Qed.
+Print Assumptions C07_unsupported_message_history.
